@@ -192,18 +192,27 @@ def fp_circuit(circ):
 
 
 def fp_target(t):
+    """behaviour of a target = the state it denotes (as a density matrix built by the reference from the raw
+    representation data).  The representation type is recorded but not judged: solvers are documented to convert the
+    target's representation in place, which keeps the state."""
     t = copy.deepcopy(t)
     rd = t.rep_data
     if t.rep_type == "g":
         G = rd.data
         nodes = list(G.nodes)
         idx = {v: i for i, v in enumerate(nodes)}
-        st = chp.graph_stab(len(nodes), [(idx[a], idx[b]) for a, b in G.edges]).canon()
-        lc = tuple(str(G.nodes[v].get("LC")) for v in nodes)
-        return {"rep": "g", "cls": type(rd).__name__, "state": ("g", st, lc)}
+        lc = [G.nodes[v].get("LC") for v in nodes]
+        rho = sv.graph_state(len(nodes), [(idx[a], idx[b]) for a, b in G.edges]).rho()
+        if any(x is not None and [getattr(c, "__name__", str(c)) for c in x] != ["Identity"] for x in lc):
+            return {"rep": "g", "state": ("g+lc", str(sorted(G.edges)), str(lc))}
+        return {"rep": "g", "state": ("dm", rho)}
     if t.rep_type == "s":
-        return {"rep": "s", "cls": type(rd).__name__, "state": reduce_state(t)}
-    return {"rep": "dm", "cls": type(rd).__name__, "state": ("dm", np.array(rd.data, dtype=complex))}
+        red = reduce_state(t)
+        if red[0] == "s":
+            xs, zs, ss, ips = gq.tableau_rows(rd.data)
+            return {"rep": "s", "state": ("dm", sv.projector_from_rows(rd.data.n_qubits, list(zip(xs, zs, ss))))}
+        return {"rep": "s", "state": red}
+    return {"rep": "dm", "state": ("dm", np.array(rd.data, dtype=complex))}
 
 
 def diff_fp(a, b, keys=None):
@@ -304,10 +313,11 @@ def run_case(case):
                     return False
             for i, t in enumerate(targets[: len(bt)]):
                 now = fp_target(t["obj"])
-                d = [k for k in bt[i] if not same_component(bt[i][k], now.get(k))]
-                if d:
-                    ctx.violate("M_target_mutated", step, f"{what}: target #{i} (given as {t['rep']}) changed in {d}: {bt[i]['rep']}/{bt[i]['cls']} -> {now['rep']}/{now['cls']}",
-                                dict(sig or {}, call=what.split(":")[0], part=d[0]))
+                if now["rep"] != bt[i]["rep"]:
+                    ctx.probe("target_representation_converted_in_place")
+                if not same_component(bt[i]["state"], now["state"]):
+                    ctx.violate("M_target_mutated", step, f"{what}: target #{i} (given as {t['rep']}, now {now['rep']}) no longer denotes the same state",
+                                dict(sig or {}, call=what.split(":")[0]))
                     return False
             return True
 
@@ -418,7 +428,7 @@ def run_case(case):
                         f_init = fp_target(init)
                         s1 = reduce_state(mk().compile(C["obj"], initial_state=init))
                         now = fp_target(init)
-                        dd = [kk for kk in f_init if not same_component(f_init[kk], now.get(kk))]
+                        dd = [] if same_component(f_init["state"], now["state"]) else ["state"]
                         if dd:
                             ctx.violate("M_initial_state_mutated", step, f"{what}: the initial_state passed to compile changed in {dd}", {"call": "compile_init", "backend": backend})
                             ok = False
